@@ -30,7 +30,7 @@ CONSTANTS LifeTTL,    \* authenticator session lifetime, units
           Forge,      \* TRUE: Init admits every cookie content (one-step cells); FALSE: only real histories
           D2          \* TRUE: emailFromIDToken indexes segment 1 without a length check (as implemented, defect D2)
 
-Provs == {"google", "okta"}
+Provs == {"google", "okta", "cognito"}   \* cognito: /callback and Redeem only (its /sign_in path is not modelled)
 Pols  == {"domains", "addresses"}        \* mux.go:22-27 - ONE validator, addresses if any are configured, else domains
 Cfgs  == [prov : Provs, pol : Pols]
 
@@ -156,7 +156,8 @@ Redeem(prov, tok, ui) ==
         ELSE "session"
    ELSE IF tok.st # "s200" \/ tok.body # "ok" THEN "error"                        \* oktaRequest; no access token: ErrBadRequest
         ELSE IF ui.st # "s200" \/ ui.body # "ok" THEN "error"                     \* GetUserProfile
-        ELSE IF ui.claims # "verified" THEN "error"                                \* verifyEmailWithAccessToken
+        ELSE IF prov = "okta" /\ ui.claims # "verified" THEN "error"              \* verifyEmailWithAccessToken
+        ELSE IF prov = "cognito" /\ ui.claims \in {"emailempty", "emailmissing"} THEN "error"   \* Cognito: "missing email"
         ELSE "session"
 
 \* nonce in the state vs. the CSRF cookie the browser sends
@@ -229,7 +230,9 @@ SignInViolated(gh, c, a, o) == LET rs == SignInRules(gh, c, a, o) IN { n \in DOM
 Vouched(prov, tok, ui) ==
    IF prov = "google"
    THEN tok.st = "s200" /\ tok.body \in {"ok", "noat"} /\ tok.segs >= 2 /\ tok.b64 = "ok" /\ tok.pj = "ok" /\ tok.claims = "verified"
-   ELSE tok.st = "s200" /\ tok.body = "ok" /\ ui.st = "s200" /\ ui.body = "ok" /\ ui.claims = "verified"
+   ELSE /\ tok.st = "s200" /\ tok.body = "ok" /\ ui.st = "s200" /\ ui.body = "ok"
+        /\ IF prov = "okta" THEN ui.claims = "verified"
+           ELSE ui.claims \in {"verified", "unverified", "vmissing", "vnonbool"}   \* "and, for Google and Okta, one it marks as verified"
 
 R_C09_CallbackNonceBound(rel, o) == o.sess => rel = "equal"
 R_C10_SessionOnlyVouched(prov, tok, ui, o) == o.sess => (Vouched(prov, tok, ui) /\ o.emailSame)
@@ -283,7 +286,7 @@ Init ==
                ELSE ck = NoCookie /\ gh = NoGhosts
 
 Start ==
-   /\ ~Forge
+   /\ ~Forge /\ cfg.prov # "cognito"
    /\ last' = [ev |-> "start", out |-> StartStep]
    /\ UNCHANGED <<ck, cfg, gh>>
 
@@ -305,7 +308,7 @@ RedeemDirect(ans) ==
    /\ UNCHANGED <<ck, cfg, gh>>
 
 Advance(d) ==
-   /\ ~Forge
+   /\ ~Forge /\ cfg.prov # "cognito"
    /\ ck.kind = "sess"
    /\ ck' = AdvanceCookie(ck, d)
    /\ gh' = AdvanceGhosts(gh, d)
@@ -314,6 +317,7 @@ Advance(d) ==
 
 SignIn(a) ==
    /\ Forge => last.ev = "init"
+   /\ cfg.prov # "cognito"
    /\ LET o == SignInStep(ck, a) IN
         /\ ck' = o.after
         /\ gh' = StepGhosts(gh, o)
